@@ -48,7 +48,7 @@ CLI_CMD = {"pipeline": "pipeline", "perf": "perf", "improper-logging": "improper
            "magic-numbers": "magic-numbers", "unwrap-abuse": "unwrap-abuse", "clone-abuse": "clone-abuse",
            "blocking-async": "blocking-async"}
 
-PY_CLASSES_QUICK = ["InFn", "InMethod", "InClassBody", "InIf", "InFor", "InWhile", "InTry", "InWith", "AfterFiller",
+PY_CLASSES_QUICK = ["InFn", "InMethod", "InClassBody", "InIf", "InNameIf", "InFor", "InWhile", "InTry", "InWith", "AfterFiller",
                     "BeforeFiller", "AfterNamesList", "BeforeNamesNum", "AfterOpenFiller", "Times2", "Times3", "Rename"]
 PY_CLASSES_MORE = ["InAsyncFn", "AfterNamesStr", "BeforeNamesList", "Times5", "FnIfAfter", "MethodTryBefore", "IfWithFnFiller"]
 TS_CLASSES = ["InFn", "InMethod", "InIf", "InFor", "InTry", "AfterFiller", "BeforeFiller", "Times2", "Times3"]
@@ -405,7 +405,7 @@ def build_fragments(tier, seed, scale, extracted):
     for ex in extracted["examples"]:
         frags[ex["id"]] = {"fid": ex["id"], "kind": "doc", "ex": ex, "lang": ex["lang"], "files": frag_files(ex),
                            "config": ex.get("config") or {}}
-    n_gen = (40 if tier == "quick" else 400) * scale
+    n_gen = (40 if tier == "quick" else 1400) * scale
     for i in range(n_gen):
         r = rng_for(seed, PROP, "gen", i)
         code = E.gen_fragment(r)
@@ -440,7 +440,7 @@ def classes_for(frag, tier, r):
         return []
     if frag["kind"] == "gen":
         pool = PY_CLASSES_QUICK + PY_CLASSES_MORE
-        return r.sample(pool, 6 if tier == "quick" else 10)
+        return r.sample(pool, 6 if tier == "quick" else 12)
     return PY_CLASSES_QUICK + (PY_CLASSES_MORE if tier == "thorough" else r.sample(PY_CLASSES_MORE, 1))
 
 
@@ -471,6 +471,10 @@ def run(tier: str, seed: int, replay: str | None = None) -> int:
     ]
     chk.build(["theories/Props/C19.v"], ["EmbedGen"], known_v=["theories/Props/C19Known.v"])
     _t(chk, "build")
+    # only the hand-modelled sources of THIS property enlarge its budget (the shared fingerprint file covers all properties)
+    from translator import items_embed
+    mine = {f"{rel}::{','.join(names)}" for rel, names in items_embed.FINGERPRINTS}
+    chk.fingerprint_changed = [k for k in chk.fingerprint_changed if k in mine]
     scale = chk.budget_scale()
     extracted = docs2cases.extract()
     chk.extra_cov["documented_examples"] = len(extracted["examples"])
@@ -660,6 +664,14 @@ def run(tier: str, seed: int, replay: str | None = None) -> int:
         if i in alg and not alg[i]:
             chk.correspondence_broken({"level": "algebra: plug/copies/rename differs from the parse of the embedded text", "fragment": c["fid"],
                                        "context_class": c["cls"], "text": c["files"][0]["code"][:800]})
+        # one CLI cross-check per linter (an embedded example that is reported)
+        if (fr["kind"] == "doc" and ex["linter"] in CLI_CMD and ex["linter"] not in cli_done and not fr["config"]
+                and len(fr["files"]) == 1 and any(r[0].startswith(ex["rule_prefix"]) for r in got["v"])):
+            cli_done.add(ex["linter"])
+            cli_jobs.append((c, {"files": c["files"], "cmd": CLI_CMD[ex["linter"]]}))
+        if moved and fr["kind"] == "doc":
+            chk.sample({"example": c["fid"], "context_class": c["cls"], "embedded_text": c["files"][0]["code"][:500],
+                        "isolated_reports": moved[:3], "embedded_reports": [r for r in got["v"] if r[0].startswith(tuple(prefixes))][:3]}, 7)
         if not problems:
             continue
         payload = {"reason": "embedding law fails on the implementation: reports inside the embedded example are not the isolated reports moved by the context's offset (or the filler code is reported differently than alone)",
@@ -699,10 +711,6 @@ def run(tier: str, seed: int, replay: str | None = None) -> int:
                     chk.known_finding(key, {**payload, "key": key})
                 else:
                     chk.violation({**payload, "key": key, "rule": rule})
-        # one CLI cross-check per linter
-        if fr["kind"] == "doc" and ex["linter"] in CLI_CMD and ex["linter"] not in cli_done and not fr["config"] and len(fr["files"]) == 1:
-            cli_done.add(ex["linter"])
-            cli_jobs.append((c, {"files": c["files"], "cmd": CLI_CMD[ex["linter"]]}))
 
     if cli_jobs and not replay:
         outs = pool_map(run_cli_job, [j for _, j in cli_jobs], procs=8)
@@ -730,6 +738,9 @@ def run(tier: str, seed: int, replay: str | None = None) -> int:
         else:
             chk.correspondence_broken({"level": "observable", "detail": "Model/PerfConcat.v under Actual/EmbedActual.v disagrees with the implementation and no candidate quirk vector matches all files"})
     _t(chk, "decisions")
+    # show a failure that is new in kind first: string-concat failures that could not be attributed only because the
+    # model could not be evaluated look like the listed findings and go last
+    chk.violations.sort(key=lambda v: 1 if "outside the model's domain" in str(v.get("note", "")) else 0)
     if os.environ.get("C19_DUMP"):
         Path(os.environ["C19_DUMP"]).write_text(json.dumps({"violations": chk.violations, "known_seen": chk.known_seen, "broken": chk.broken,
                                                             "corr": chk.corr_broken, "fingerprint_changed": chk.fingerprint_changed}, indent=1, default=str))
